@@ -89,6 +89,7 @@ def ann_type(node, overrides, key):
         "List[Tuple[int, int]]": ("list", ("tuple", ["int", "int"])),
         "ArrayPositionList": ("list", ("tuple", ["int", "int"])),
         "Tuple[IndexList, IndexList]": ("tuple", [("list", "int"), ("list", "int")]),
+        "Tuple[List[int], List[int]]": ("tuple", [("list", "int"), ("list", "int")]),
         "List[List[int]]": ("list", ("list", "int")),
     }
     if s in table:
@@ -166,6 +167,8 @@ class Fn:
                 return b, "(py_len %s)" % c, "int"
             if t == "MAT" and e.attr == "T" and "np_matmul" in self.externs:
                 return b, "(np_transpose %s)" % c, "MAT"
+            if t == "arr2" and e.attr == "T":
+                return b, "(arr2_transpose f0 %s)" % c, "arr2"
             raise Unsupported("attribute %s" % ast.unparse(e))
         if isinstance(e, ast.IfExp):
             bc, cc, tc = self.expr(e.test, env)
@@ -243,6 +246,9 @@ class Fn:
         b2, c2, t2 = self.expr(e.right, env)
         b = b1 + b2
         op = type(e.op)
+        if op in (ast.Add, ast.Sub) and (t1, t2) == ("arr2", "arr2"):
+            v = self.fresh()
+            return b + [(v, "arr2_bin %s %s %s" % ("fadd" if op is ast.Add else "fsub", c1, c2))], v, "arr2"
         if op is ast.BitAnd and (t1, t2) == ("mask2", "mask2"):
             v = self.fresh()
             return b + [(v, "np_mask_and %s %s" % (c1, c2))], v, "mask2"
@@ -342,6 +348,8 @@ class Fn:
             b, c, t = self.expr(e.value.value, env)
             if t == "arr2" and isinstance(e.slice, ast.Constant) and e.slice.value in (0, 1):
                 return b, "(%s %s)" % ("a_rows" if e.slice.value == 0 else "a_cols", c), "int"
+            if t == ("list", "F") and isinstance(e.slice, ast.Constant) and e.slice.value == 0:
+                return b, "(py_len %s)" % c, "int"
             raise Unsupported("shape of %s" % (t,))
         if isinstance(e.value, ast.Call) and ast.unparse(e.value.func) == "np.linalg.slogdet" and "slogdet_logabs" in self.externs \
                 and isinstance(e.slice, ast.Constant) and e.slice.value == 1 and len(e.value.args) == 1 and not e.value.keywords:
@@ -365,6 +373,12 @@ class Fn:
                 raise Unsupported("element index types")
             v = self.fresh()
             return b + bi + bj + [(v, "np_get2 %s %s %s" % (c, ci, cj))], v, ("F" if t == "arr2" else "int")
+        if t == "arr2" and not isinstance(sl, (ast.Tuple, ast.Slice)):
+            bi0, ci0, ti0 = self.expr(sl, env)
+            if ti0 == ("tuple", [("list", "int"), ("list", "int")]):
+                # a[(rows, cols)]: NumPy fancy indexing with a pair of equally long index lists
+                v = self.fresh()
+                return b + bi0 + [(v, "np_take2 %s (fst %s) (snd %s)" % (c, ci0, ci0))], v, ("list", "F")
         if t == "arr2" and isinstance(sl, ast.Tuple) and len(sl.elts) == 2 and isinstance(sl.elts[1], ast.Slice) \
                 and sl.elts[1].lower is None and sl.elts[1].upper is None and sl.elts[1].step is None \
                 and not isinstance(sl.elts[0], ast.Slice):
@@ -479,6 +493,22 @@ class Fn:
                 return b, "(np_log (of_int %s))" % c, "F"
             if t == "F":
                 return b, "(np_log %s)" % c, "F"
+        if fn == "np.sqrt" and "np_sqrt_int" in self.externs and len(e.args) == 1 and not e.keywords:
+            b, c, t = self.expr(e.args[0], env)
+            if t == "int":
+                return b, "(np_sqrt_int %s)" % c, "float"
+        if fn == "np.triu_indices" and len(e.args) == 1 and not e.keywords and "np_sqrt_int" in self.externs:
+            b, c, t = self.expr(e.args[0], env)
+            if t == "int":
+                return b, "(np_triu_indices %s)" % c, ("tuple", [("list", "int"), ("list", "int")])
+        if isinstance(e.func, ast.Attribute) and e.func.attr == "diagonal" and not e.args and not e.keywords:
+            b, c, t = self.expr(e.func.value, env)
+            if t == "arr2":
+                return b, "(arr2_diagonal f0 %s)" % c, ("list", "F")
+        if fn == "np.diag" and "np_sqrt_int" in self.externs and len(e.args) == 1 and not e.keywords:
+            b, c, t = self.expr(e.args[0], env)
+            if t == ("list", "F"):
+                return b, "(arr2_of_diag f0 %s)" % c, "arr2"
         if fn in ("np.square", "np.sqrt") and len(e.args) == 1 and not e.keywords:
             b, c, t = self.expr(e.args[0], env)
             if t == ("list", "F"):
@@ -795,6 +825,12 @@ class Fn:
                 ta = env[a]
                 if ta == "arr2" and not isinstance(tgt.slice, (ast.Tuple, ast.Slice)):
                     bi, ci, ti = self.expr(tgt.slice, env)
+                    if ti == ("tuple", [("list", "int"), ("list", "int")]):
+                        # a[(rows, cols)] = values : one value per index pair
+                        bv, cv, tv = self.expr(s.value, env)
+                        if tv != ("list", "F"):
+                            raise Unsupported("fancy store of a %s" % (tv,))
+                        return self.wrap(bi + bv, "%s <- np_put2 %s (fst %s) (snd %s) %s ;;\n  %s" % (cname(a), cname(a), ci, ci, cv, nxt(env)))
                     if ti == "mask2":
                         # a[mask] = scalar
                         bv, cv, tv = self.expr(s.value, env)
@@ -1115,6 +1151,12 @@ TARGETS = {
                             {"arguments": ("record", "ll_args", {"window_size": "int", "num_clusters": "int"}, "la_", "ll_args"),
                              "clusters": ("list", "CL"), "point_labels": ("list", "int")}, "lm_", "(ll_model CL)"),
                            ("_compute_log_likelihood_by_cluster", "return"): ("list", ("list", "F"))}),
+    "matrix_compression": ("matrix_compression.py", ["_full_matrix_size", "_upper_triangle_indices", "_uncompress_upper_triangle", "_upper_to_full",
+                                                      "compress_matrix", "reinflate_matrix"],
+                           {("_uncompress_upper_triangle", "compressed_tri"): ("list", "F"), ("_uncompress_upper_triangle", "return"): "arr2",
+                            ("_upper_to_full", "upper_tri"): "arr2", ("_upper_to_full", "return"): "arr2",
+                            ("compress_matrix", "full_matrix"): "arr2", ("compress_matrix", "return"): ("list", "F"),
+                            ("reinflate_matrix", "compressed_utri"): ("list", "F"), ("reinflate_matrix", "return"): "arr2"}),
     "graphical_lasso": ("graphical_lasso.py", ["_zero_small_elements", "_reconstruct_optimized_matrix"],
                         {("_zero_small_elements", "array"): "arr2", ("_zero_small_elements", "epsilon"): "F",
                          ("_zero_small_elements", "return"): "arr2",
@@ -1186,6 +1228,10 @@ KERNEL_MODULES = {
                  "  (* likelihood.point_log_likelihood(point, cluster, window_size, num_data_series): uninterpreted *)\n"
                  "  Variable point_log_likelihood : list F -> CL -> Z -> Q -> F.\n"),
         "externs": {"likelihood.point_log_likelihood": ([("list", "F"), "CL", "int", "float"], "F", "point_log_likelihood", False)}},
+    "matrix_compression": {
+        "imports": "",
+        "vars": "  Variable np_sqrt_int : Z -> Q.                  (* np.sqrt of an int (float64 square root; exact on perfect squares below 2^53) *)\n",
+        "externs": {"np_sqrt_int": ([], None, "np_sqrt_int", False)}},
     "graphical_lasso": {
         "imports": "",
         "vars": "  Variable reinflate_matrix : list F -> arr2 F.   (* matrix_compression.reinflate_matrix (modelled in Model/TriIndex.v) *)\n",
